@@ -348,7 +348,7 @@ class _Gen:
                     self.colsig[c][kind] = cell.text
         if kind != 'tandem' and not p.uniform_signatures:
             kern_cols = [c for c in range(len(self.paths)) if self.typ(c) == '**kern']
-            if any(cells[c].kind == 'nullinterp' for c in kern_cols) and any(cells[c].kind != 'nullinterp' for c in kern_cols):
+            if any(cells[c].kind != kind for c in kern_cols) and any(cells[c].kind == kind for c in kern_cols):
                 self.doc.tags.add('nonuniform_signatures')
         self.add(Line('interp', cells))
 
